@@ -97,8 +97,9 @@ VF_NOINLINE static void runOther() {
   bool ran = false;
   try {
     // = pool.tryExecuteNext() of the contract pool (popMatching + run + workRemaining_), except that
-    // the task holder is not freed: a free under a symbolic guard makes every later holder access
-    // case-split on liveness (measured: 8.1 M variables / 210 s solver instead of 1.3 M / 35 s)
+    // the task holder is not deleted: `delete t` here (virtual deleting-destructor dispatch + free
+    // under a symbolic guard, liveness of the holder becomes symbolic for every later access) costs
+    // 8.1 M variables / 210 s solver instead of 1.3 M / 35 s.  The holder's payload (TBody) is trivial.
     dispenso::vfpool::TaskBase* t = g_poolp->popMatching(dispenso::vfpool::kCentral, 0, false);
     if (t) {
       t->run();
